@@ -200,7 +200,7 @@ class Harness(cm.BaseA):
         return ev
 
     def canon(self, W, config):
-        parts = [lw._volumes.tobytes() for _, lw in sorted(W["lw"].items())]
+        parts = [lw.volumes.astype(float).tobytes() for _, lw in sorted(W["lw"].items())]
         return b"|".join(parts) + W["robot"].canon().encode()
 
     def step(self, W, ev, config):
